@@ -116,6 +116,7 @@ def run(ctx):
     for sp in spl:
         sp['opts']['split'] = '3h'
         sp['opts']['no_solve'] = True
+    spl = [sp for sp in util.corpus(ctx.prop) if sp['opts'].get('split')] + spl
     spl = [sp for sp in ctx.specs(spl) if sp.get('opts', {}).get('split')]
     from props.C14 import interval_ranges
     sm_exprs, sm_owners = [], []
